@@ -615,8 +615,10 @@ def make_contain(prog, stitched):
                                    'model': B.model_values(m), 'syscalls': fs.log[-20:],
                                    'scenario': {'bands': bands_json(m, ex.env['bands']), 'restore_band': ex.env['restore_band']}})
             elif len(res['samples']) < 2:
+                r0, m = ex.E.check()
                 res['samples'].append({'target': tgt, 'stitched': stitched, 'result': 'Ok' if rv == 0 else 'Err', 'errors': errs,
-                                       'syscalls': fs.log[-12:]})
+                                       'syscalls': fs.log[-12:],
+                                       'scenario': {'bands': bands_json(m, ex.env['bands']), 'restore_band': ex.env['restore_band']}})
         return h, on_path, res
     return mk_
 
